@@ -93,7 +93,15 @@ def _add_vars(ds: xr.Dataset, built_grids: dict, var_recipes: list, sizes_extra:
         dtype = vr.get('dtype', 'f8')
         attrs = {}
         nan = tuple(p for p in vr.get('nan', ()) if p < n)
-        if dtype in FLOAT_DTYPES:
+        if dtype in ('M8', 'm8'):
+            # instants / durations: the tag, in seconds (since 2000-01-01); NaT where a float would hold NaN
+            secs = (np.arange(n, dtype='i8') + base).astype('timedelta64[s]').astype('timedelta64[ns]')
+            data = (np.datetime64('2000-01-01T00:00:00', 'ns') + secs) if dtype == 'M8' else secs
+            data = data.reshape(shape)
+            if nan:
+                flat = data.reshape(-1)
+                flat[list(nan)] = np.datetime64('NaT') if dtype == 'M8' else np.timedelta64('NaT')
+        elif dtype in FLOAT_DTYPES:
             data = (np.arange(n, dtype='f8') + base).astype(FLOAT_DTYPES[dtype]).reshape(shape)
             if nan:
                 flat = data.reshape(-1)
@@ -149,7 +157,7 @@ def finalize_var_orders(rng: random.Random, var_recipes: list, grids: dict, perm
             order = list(range(nd))
             rng.shuffle(order)
             vr['order'] = order
-        if with_nan and (vr.get('dtype', 'f8') in FLOAT_DTYPES or vr.get('dtype') in INT_FILL):
+        if with_nan and (vr.get('dtype', 'f8') in FLOAT_DTYPES or vr.get('dtype') in INT_FILL or vr.get('dtype') in ('M8', 'm8')):
             vr['nan'] = sorted(rng.sample(range(40), rng.randint(0, 4)))
 
 
@@ -466,6 +474,9 @@ def build_shoc_standard(r: dict) -> Built:
         yn, xn = names[kind]
         xa = xr.DataArray(comp(grid, 0), dims=dims[kind], attrs={'units': 'degrees_east', 'coordinate_type': 'longitude'})
         ya = xr.DataArray(comp(grid, 1), dims=dims[kind], attrs={'units': 'degrees_north', 'coordinate_type': 'latitude'})
+        if kind in r.get('x_transposed', []):
+            # the longitude variable stored with its dimensions the other way round (legal: named dimensions)
+            xa = xa.transpose()
         if coords_as == 'coords':
             ds = ds.assign_coords({xn: xa, yn: ya})
         else:
@@ -496,6 +507,8 @@ def random_shoc_standard(rng: random.Random, max_n: int = 5, holes: bool = True,
     if holes and ny * nx >= 4 and rng.random() < 0.5:
         nodes = [(j, i) for j in range(ny + 1) for i in range(nx + 1)]
         r['masked_nodes'] = [list(c) for c in rng.sample(nodes, rng.randint(1, 2))]
+    if rng.random() < 0.3:
+        r['x_transposed'] = rng.choice([['face'], ['face', 'left'], ['back'], ['face', 'left', 'back']])   # (not the node grid: its arrays are sliced by position)
     return r
 
 
@@ -651,20 +664,30 @@ def build_ugrid(r: dict) -> Built:
     mdim = names.get('max_dim', 'nMaxMesh2_face_nodes')
     two = names.get('two_dim', 'Two')
 
+    # the index base is a property of each table (the `start_index` attribute is per variable): tables listed in
+    # `other_base_tables` use the other base than the rest
+    other_base_tables = set(enc.get('other_base_tables', []))
+
     def conn(rows, width, dims, role, nrows_dim_first=True):
+        tbase = (1 - base) if role.replace('_connectivity', '') in other_base_tables else base
+        tfill = FILL
+        if fill_spec == 'low':
+            tfill = tbase - 1
+        elif fill_spec == 'neg':
+            tfill = -1 if tbase == 0 else -9
         if fill == 'nan':
             data = np.full((len(rows), width), np.nan, dtype='f8')
         else:
-            data = np.full((len(rows), width), FILL, dtype=FDTYPE)
+            data = np.full((len(rows), width), tfill, dtype=FDTYPE)
         for k, row in enumerate(rows):
             for c, v in enumerate(row):
                 if v is not None:
-                    data[k, c] = v + base
+                    data[k, c] = v + tbase
         attrs = {'cf_role': role}
-        if base != 0 or enc.get('explicit_start_index', True):
-            attrs['start_index'] = {'int': base, 'str': str(base), 'np': np.int32(base)}[start_index_spelling]
+        if tbase != 0 or enc.get('explicit_start_index', True):
+            attrs['start_index'] = {'int': tbase, 'str': str(tbase), 'np': np.int32(tbase)}[start_index_spelling]
         if fill == 'attr':
-            attrs['_FillValue'] = np.dtype(FDTYPE).type(FILL)
+            attrs['_FillValue'] = np.dtype(FDTYPE).type(tfill)
         d = list(dims)
         if transposed:
             data = data.T
@@ -738,6 +761,10 @@ def build_ugrid(r: dict) -> Built:
         mesh_attrs['face_coordinates'] = 'Mesh2_face_x Mesh2_face_y'
         centres = list(zip(fx, fy))
     ds['Mesh2'] = xr.DataArray(np.int32(0), attrs=mesh_attrs)
+    if enc.get('edge_tables_as_coords'):
+        # the edge tables flagged as xarray coordinates (`set_coords`): emsarray then does not use them as tables
+        # (it numbers the edges itself) but the edge dimension they span is still a grid of the dataset
+        ds = ds.set_coords([n for n in ('Mesh2_edge_nodes', 'Mesh2_edge_faces') if n in ds.variables])
     # declaration order of grid kinds in UGrid.grid_dimensions: node, face, edge
     grids = {'node': ((ndim,), (len(nodes),)), 'face': ((fdim,), (nface,))}
     if has_edge:
@@ -805,6 +832,10 @@ def random_ugrid(rng: random.Random, max_w: int = 3, max_h: int = 3, **kw) -> di
         'face_coords': kw.get('face_coords', None),
         'edge_face_missing_first': kw.get('edge_face_missing_first', rng.random() < 0.35),
         'fill_spec': kw.get('fill_spec', c_spec),
+        'edge_tables_as_coords': kw.get('edge_tables_as_coords', False),
+        'other_base_tables': kw.get('other_base_tables',
+                                    rng.choice([['face_edge', 'edge_node'], ['edge_face'], ['face_node'], ['face_face', 'edge_node']])
+                                    if rng.random() < 0.2 else []),
     }
     r = {'conv': 'ugrid', 'nodes': mesh['nodes'], 'faces': mesh['faces'], 'enc': enc}
     return r
@@ -835,12 +866,66 @@ BUILDERS = {
 }
 
 
+def random_vary(rng: random.Random, conv: str) -> dict:
+    """How the same content is *held*: none of this changes a value, a name or an attribute a user would
+    call different, and none of it may change what emsarray answers."""
+    v = {}
+    c = rng.random()
+    if c < 0.2:
+        v['via_file'] = True                 # written to netCDF and opened again: decoded, encodings as files have them
+    elif c < 0.35:
+        v['chunk'] = rng.choice([1, 2])      # dask-backed, small chunks along every dimension
+    if rng.random() < 0.15:
+        v['byteorder'] = '>'                 # data variables big-endian (what NetCDF-3 readers hand out)
+    if rng.random() < 0.2:
+        v['geom_as_coords'] = True           # bounds / connectivity variables held as xarray coordinates
+    return v
+
+
+def apply_vary(built: Built, vary: dict) -> None:
+    import os
+    import tempfile
+    ds = built.ds
+    if vary.get('byteorder'):
+        for name in built.vars:
+            da = ds[name]
+            if da.dtype.kind in 'fiu' and da.dtype.itemsize > 1:
+                attrs, enc = dict(da.attrs), dict(da.encoding)
+                ds[name] = da.astype(da.dtype.newbyteorder(vary['byteorder']))
+                ds[name].attrs, ds[name].encoding = attrs, enc
+    if vary.get('geom_as_coords') and built.conv != 'ugrid':
+        # (UGRID connectivity is looked up among the data variables by design)
+        names = [n for n in ds.data_vars if n not in built.vars and ds[n].ndim > 0]
+        ds = ds.set_coords(names)
+    if vary.get('via_file') and not any(i.dtype in INT_FILL for i in built.vars.values()):
+        d = tempfile.mkdtemp(prefix='verifgen')
+        path = os.path.join(d, 'ds.nc')
+        try:
+            ds.to_netcdf(path)
+            with xr.open_dataset(path) as opened:
+                ds = opened.load()
+        finally:
+            if os.path.exists(path):
+                os.remove(path)
+            os.rmdir(d)
+    if vary.get('chunk'):
+        ds = ds.chunk({d: vary['chunk'] for d in ds.dims})
+    built.ds = ds
+
+
 def build(recipe: dict) -> Built:
-    return BUILDERS[recipe['conv']](recipe)
+    b = BUILDERS[recipe['conv']](recipe)
+    if recipe.get('vary'):
+        apply_vary(b, recipe['vary'])
+    return b
 
 
 def random_recipe(rng: random.Random, conv: str | None = None, tier: str = 'quick', **kw) -> dict:
     conv = conv or rng.choice(CONVS)
+    if kw.pop('vary', False):
+        r = random_recipe(rng, conv, tier, **kw)
+        r['vary'] = random_vary(rng, conv)
+        return r
     big = tier == 'thorough'
     if conv == 'cf1d':
         return random_cf1d(rng, max_n=kw.pop('max_n', 9 if big else 6), **kw)
